@@ -313,7 +313,7 @@ Section AroIDs.
     destruct (should_propagate s (PBgp r b)); [|assumption].
     destruct (rewrite s r b); [|assumption].
     destruct (apply (cur a) pfx (PBgp r b0)) as [c|]; destruct (apply nw pfx (PBgp r b0)) as [n|].
-    - destruct (path_equal c n); [assumption|].
+    - destruct (path_compare c n); [assumption|].
       apply add_inner_inv. now apply remove_exported_inv.
     - now apply remove_exported_inv.
     - now apply add_inner_inv.
